@@ -154,3 +154,160 @@ PROPS["C03"] = dict(
         H("c03::c03_take_all", "take_all returns the whole balance and leaves zero; is_empty <=> zero", timeout=600),
     ],
 )
+
+MIR_TB = ["rustc nightly MIR dump (--emit=mir) of /repo's crate", "lib/mirsmt symbolic executor (validated every "
+          "run by the concrete-mode self-test against the natively compiled function)",
+          "library model table lib/mirsmt/models.py: exact integer semantics of bnum/core primitives "
+          "(checked_*/wrapping/cmp/casts/leading_zeros/pow)", "z3 4.x (QF_NIA / LIA over mathematical integers with "
+          "explicit range constraints)"]
+
+PROPS["C24"] = dict(
+    title="Decimal arithmetic is exact or reports overflow",
+    functions=[
+        "radix_common::math::Decimal::{checked_add, checked_sub, checked_neg, checked_abs, cmp/eq, is_zero, "
+        "is_negative, is_positive} (Kani, vs 3x64-bit limb reference)",
+        "radix_common::math::Decimal::{checked_mul, checked_div} and PreciseDecimal::{checked_mul, checked_div} "
+        "(MIR->SMT), including the repo's I192/I256/I320/I512 wrappers: From/TryFrom between widths, "
+        "checked_mul/checked_div/mul/sub wrappers, leading_zeros, constants ONE/ZERO/MIN",
+    ],
+    bounds="every pair of 192-bit (Decimal) resp. 256-bit (PreciseDecimal) values: full width, no loops; bnum "
+           "primitives at the bottom are interpreted by the library model table",
+    outside="saturating_*/operator impls that expect() on the checked result; Decimal x primitive-integer impls; "
+            "the correctness of bnum's own limb arithmetic for mul/div (trusted via the model table, cross-checked "
+            "by the per-run self-test vectors); Display/FromStr",
+    assumptions=["bnum BInt<N>::checked_{add,sub,mul,div}, cmp, leading_zeros, CastFrom behave as exact integer "
+                 "operations with overflow = None (library model table)"],
+    trusted_base=KANI_TB + MIR_TB,
+    kani=[
+        H("c24::c24_decimal_checked_add_sub_full_width", "checked_add/checked_sub agree with the limb reference on "
+          "every pair of 192-bit values, including the None cases", timeout=900),
+        H("c24::c24_decimal_neg_abs_cmp_full_width", "checked_neg/checked_abs/ordering/sign predicates agree with "
+          "the limb reference on every pair of 192-bit values", timeout=900),
+    ],
+    mir=True,
+)
+
+PROPS["C25"] = dict(
+    title="Rounding follows the declared rounding modes",
+    functions=["radix_common::math::Decimal::checked_round", "radix_common::math::PreciseDecimal::checked_round",
+               "radix_common::math::rounding_mode::ResolvedRoundingStrategy::{from_mode, from_midpoint_ordering, "
+               "towards_zero, away_from_zero}", "the I192/I256 wrappers they call (pow, %, +, -, <<, >>, cmp, "
+               "checked_add, checked_sub)"],
+    bounds="every 192-bit (256-bit) value and every rounding mode symbolically; decimal places enumerated: Decimal "
+           "0..=18 in both tiers, PreciseDecimal {0,1,17,18,35,36} quick and 0..=36 thorough",
+    outside="checked_floor/checked_ceiling/for_withdrawal/check_fungible_amount wrappers (they only pick dp and mode); "
+            "the two assert!s on decimal_places (dp outside [0, SCALE] panics by contract)",
+    assumptions=["bnum primitives as in the library model table"],
+    trusted_base=MIR_TB,
+    mir=True,
+)
+
+PROPS["C29"] = dict(
+    title="Calendar time conversions are correct and invertible",
+    functions=["radix_common::time::UtcDateTime::{from_instant, to_instant, is_leap_year, "
+               "num_leap_years_up_to_exclusive}", "radix_common::time::Instant::new"],
+    bounds="from_instant: every i64; to_instant: every valid field tuple with year any u32 >= 1; month loops "
+           "unrolled to 16 with an unwinding obligation (needs <= 12)",
+    outside="add_days/hours/minutes/seconds (compositions of the two conversions with Instant::add_*); Display; "
+            "FromStr is covered by the separate Kani window harness only within its stated byte window",
+    assumptions=["the reference (days-from-civil, era / year-of-era / March-based day-of-year) is the proleptic "
+                 "Gregorian calendar; round-trip and strict monotonicity follow from agreement with this reference, "
+                 "which is a bijection between valid field tuples and seconds"],
+    trusted_base=MIR_TB,
+    mir=True,
+)
+
+PROPS["C14"]["bounds"] = ("every strictly sorted underlying sequence of <= NU entries and every strictly sorted "
+                          "overlay of <= NO entries (upsert or delete) over a 6-key universe, arbitrary u8 payloads; "
+                          "(NU,NO) = (2,2),(3,2) quick, plus (3,3),(2,4),(4,2) thorough; unwind 8 with unwinding "
+                          "assertions")
+PROPS["C14"]["kani"] = [
+    H("c14::c14_overlaying_iterator_2x2", "merge listing equals reference overlay lookup in key order (2+2)",
+      timeout=900),
+    H("c14::c14_overlaying_iterator_3x2", "merge listing equals reference overlay lookup in key order (3+2)",
+      timeout=1500),
+    H("c14::c14_overlaying_iterator_3x3", "merge listing equals reference (3+3)", timeout=2400,
+      tiers=("thorough",)),
+    H("c14::c14_overlaying_iterator_2x4", "merge listing equals reference (2 underlying, 4 overlay)",
+      timeout=2400, tiers=("thorough",)),
+    H("c14::c14_overlaying_iterator_4x2", "merge listing equals reference (4 underlying, 2 overlay)",
+      timeout=2400, tiers=("thorough",)),
+]
+
+PROPS["C12"] = dict(
+    title="The transaction state cache reads back its own writes",
+    functions=["radix_rust::iterators::OverlayingResultIterator::{new, next} (the fallible merge Track uses to list "
+               "substates: tracked writes over database reads)"],
+    bounds="every strictly sorted underlying sequence of <= NU Ok entries with an Err injected at any position (or "
+           "none) and every strictly sorted overlay of <= NO entries (write or delete) over a 6-key universe; "
+           "(NU,NO) = (2,2) quick, (3,3),(2,4) thorough; unwind 8 with unwinding assertions",
+    outside="TrackedSubstateValue / TrackedSubstates read-after-write, take, revert and to_state_updates; "
+            "MappedTrack::{scan_keys, drain_substates, scan_sorted_substates} over real maps and database "
+            "(IndexMap-backed state does not finish under CBMC): only the listing merge component is decided",
+    assumptions=["both inputs are sorted by key without duplicates (BTreeMap iteration order)"],
+    trusted_base=KANI_TB,
+    kani=[
+        H("c14::c12_overlaying_result_iterator_2x2", "tracked writes win over database reads, deletes hide, order "
+          "preserved, nothing is yielded after the first error (2+2)", timeout=1500),
+        H("c14::c12_overlaying_result_iterator_3x3", "same, 3+3", timeout=3000, tiers=("thorough",)),
+        H("c14::c12_overlaying_result_iterator_2x4", "same, 2+4", timeout=3000, tiers=("thorough",)),
+    ],
+)
+
+PROPS["C20"] = dict(
+    title="SBOR values round-trip and have a unique encoding",
+    functions=["sbor::Encoder::write_size (VecEncoder)", "sbor::Decoder::read_size (VecDecoder)"],
+    bounds="write->read: every usize; read->write: every byte string of length <= 5; loops unwound to 6 with "
+           "unwinding assertions (the codec uses at most 4 bytes)",
+    outside="the typed and generic Value codecs (strings, containers, enums, custom values): 6 symbolic bytes at "
+            "depth 1 did not finish under CBMC (DESIGN section 4), so the property is decided ONLY for the "
+            "codec's length prefix, which every container/string/bytes encoding goes through",
+    assumptions=[],
+    trusted_base=KANI_TB,
+    kani=[
+        H("c20::c20_size_roundtrip", "write_size accepts exactly sizes <= 0x0FFFFFFF and read_size returns the "
+          "value consuming exactly the written bytes", timeout=600),
+        H("c20::c20_size_canonical", "any accepted byte prefix re-encodes to itself (unique encoding), <= 4 bytes "
+          "consumed, no panic", timeout=900),
+    ],
+)
+
+PROPS["C29"]["functions"].append("<radix_common::time::UtcDateTime as FromStr>::from_str (Kani, byte-window bound)")
+PROPS["C29"]["bounds"] += ("; from_str: the well-formed 20-byte template 2023-01-27T12:17:25Z with (a) the last seconds "
+                           "digit replaced by every 2-byte UTF-8 scalar U+0080..U+07FF (21 bytes, 20 chars) and (b) "
+                           "every ASCII byte at that position; unwind 24")
+PROPS["C29"]["outside"] = PROPS["C29"]["outside"].replace(
+    "FromStr is covered by the separate Kani window harness only within its stated byte window",
+    "from_str on strings outside the stated one-position windows (arbitrary strings of even 4-5 symbolic bytes "
+    "exhaust memory under CBMC)")
+PROPS["C29"]["trusted_base"] = KANI_TB + MIR_TB
+PROPS["C29"]["kani"] = [
+    H("c29::c29_from_str_two_byte_char_window", "a 20-char / 21-byte input (one 2-byte UTF-8 scalar) is rejected "
+      "with an error, never a panic", timeout=900),
+    H("c29::c29_from_str_ascii_window", "every ASCII byte in the seconds field: accepted iff digit, exact fields, "
+      "no panic", timeout=900),
+]
+
+# --- calibration outcome (round 2): harnesses that were never run to completion inside their cap are not part of
+# any tier (a thorough run that times out would be "not decided", which is a broken check, not depth).
+for _pid in ("C12", "C14"):
+    PROPS[_pid]["kani"] = [h for h in PROPS[_pid]["kani"]
+                           if h["name"] in ("c14::c14_overlaying_iterator_2x2", "c14::c14_overlaying_iterator_3x2",
+                                            "c14::c14_overlaying_iterator_3x3",
+                                            "c14::c12_overlaying_result_iterator_2x2")]
+PROPS["C14"]["bounds"] = PROPS["C14"]["bounds"].replace("plus (3,3),(2,4),(4,2) thorough", "plus (3,3) thorough")
+PROPS["C12"]["bounds"] = PROPS["C12"]["bounds"].replace("(NU,NO) = (2,2) quick, (3,3),(2,4) thorough",
+                                                        "(NU,NO) = (2,2) in both tiers (larger sizes exist as "
+                                                        "harnesses but were not calibrated)")
+
+_c16_keep = {"c16::c16_partition_key_roundtrip": ("quick", "thorough"), "c16::c16_field_key_roundtrip": ("quick", "thorough"),
+             "c16::c16_map_key_roundtrip_len0": ("quick", "thorough"), "c16::c16_map_key_roundtrip_len1": ("quick", "thorough"),
+             "c16::c16_map_key_roundtrip_len2": ("thorough",), "c16::c16_map_key_roundtrip_len4": ("quick", "thorough"),
+             "c16::c16_sorted_key_len0_len3": ("quick", "thorough")}
+PROPS["C16"]["kani"] = [dict(h, tiers=_c16_keep[h["name"]]) for h in PROPS["C16"]["kani"] if h["name"] in _c16_keep]
+PROPS["C16"]["bounds"] = ("node id: all 30 bytes symbolic; partition number: any u8; field key: any u8; map keys: every "
+                          "content for lengths 0,1,4 (2 in thorough); sorted keys: every pair of 2-byte prefixes with "
+                          "payload lengths (0,3), every content; loops unwound to 32 (node-id comparison) / 7 with "
+                          "unwinding assertions")
+PROPS["C16"]["outside"] += ("; sorted-key payload length pairs (3,1) and (2,2): harnesses exist but needed > 12 min / "
+                            "7 GB under CBMC and are not part of any tier")
